@@ -142,7 +142,12 @@ def scenario(pk, params, inp):
     g1 = gen(n, rng1)
     out = {"concrete": False, "players": int(g1.number_of_players), "values": _tab(pk, g1, n), "draws": rng1.k,
            "all_known": bool(np.all(g1.are_values_known())) if hasattr(g1, "are_values_known") else True}
-    if key not in IGNORES_RNG:
+    # what the caller does with a returned game must not leak into later calls: mutate it through the public in-place API
+    if hasattr(g1, "set_value"):
+        C_ = pk.coalitions.Coalition
+        g1.set_value(inp.const(12345), C_(2 ** n - 1))
+        g1.set_value(inp.const(-777), C_(1))
+    if key not in IGNORES_RNG or key == "xos_one":
         # identical stream again: a generator consulting hidden state (module RNG, global counter) shows up here
         class _Replay:
             mode = inp.mode
